@@ -775,11 +775,21 @@ Definition TblAct (c : cstate) (k : tkey) : Prop :=
   exists s l, get_staged_task (c_ws c) (fst k) (snd k) = Some s /\ s_items s = Some l /\
               existsb (fun x => status_in x ACTIVE_STATUSES) l = true.
 
+(* ... or has no table at all (a task without items) *)
+Definition NoTbl (c : cstate) (k : tkey) : Prop := items_of c (fst k) (snd k) = None.
+Definition Tok (c : cstate) (k : tkey) : Prop := TblAct c k \/ NoTbl c k.
+
+Lemma Tok_staged : forall c c' k, staged (c_ws c') = staged (c_ws c) -> Tok c k -> Tok c' k.
+Proof.
+  intros c c' k H [[s [l [A B]]]|N]; [left; exists s, l; unfold get_staged_task in *; rewrite H; auto|right].
+  unfold NoTbl, items_of, get_staged_task in *. rewrite H. exact N.
+Qed.
+
 Definition Rrq (c c' : cstate) : Prop :=
   staged (c_ws c') = staged (c_ws c) /\ tasks (c_ws c') = tasks (c_ws c) /\ c_init c' = c_init c /\
   forall i r, nth_error (sequence (c_ws c)) i = Some r ->
     exists r', nth_error (sequence (c_ws c')) i = Some r' /\ key_of r' = key_of r /\
-               (TblAct c (key_of r) -> busy (r_status r) -> busy (r_status r')).
+               (Tok c (key_of r) -> busy (r_status r) -> busy (r_status r')).
 
 Lemma TblAct_staged : forall c c' k, staged (c_ws c') = staged (c_ws c) -> TblAct c k -> TblAct c' k.
 Proof. intros c c' k H [s [l [A B]]]. exists s, l. unfold get_staged_task in *. rewrite H. auto. Qed.
@@ -791,7 +801,7 @@ Proof.
   intros a b c [A1 [A2 [A3 A4]]] [B1 [B2 [B3 B4]]]. split; [congruence|]. split; [congruence|]. split; [congruence|].
   intros i r E. destruct (A4 i r E) as [r1 [E1 [K1 L1]]]. destruct (B4 i r1 E1) as [r2 [E2 [K2 L2]]].
   exists r2. split; [exact E2|]. split; [congruence|]. intros T L. apply L2; [|apply L1; assumption].
-  rewrite K1. eapply TblAct_staged; [exact A1|exact T].
+  rewrite K1. eapply Tok_staged; [exact A1|exact T].
 Qed.
 
 Lemma Rrq_same : forall c c', staged (c_ws c') = staged (c_ws c) -> tasks (c_ws c') = tasks (c_ws c) ->
@@ -803,7 +813,7 @@ Proof.
 Qed.
 
 Lemma Rrq_set_status : forall c i r s, nth_error (sequence (c_ws c)) i = Some r ->
-  (TblAct c (key_of r) -> busy (r_status r) -> busy s) ->
+  (Tok c (key_of r) -> busy (r_status r) -> busy s) ->
   Rrq c (set_ws c (ws_update_rec (c_ws c) i (fun r0 => r_set_status r0 s))).
 Proof.
   intros c i r s Hr Hl. unfold ws_update_rec. rewrite Hr. split; [reflexivity|]. split; [reflexivity|]. split; [reflexivity|].
@@ -832,11 +842,19 @@ Proof.
   unfold bind in H. destruct (task_process_event (c_ws c) r (EvWorkflow st)) as [[s|]|e] eqn:Ens; simpl in H;
     try (inversion H; apply Rrq_refl).
   unfold set_rec_status, modws in H. inversion H; subst c'. apply (Rrq_set_status c i r (Some s) Hr).
-  intros [e0 [l [Hg [Hl Hact]]]] Hlive. unfold task_process_event in Ens. destruct (negb _); [discriminate|].
-  apply task_table_step_val in Ens. unfold key_of in Hg. simpl in Hg. unfold busy. simpl.
-  destruct (status_in st (app PAUSE_STATUSES CANCEL_STATUSES)) eqn:Epc.
-  - exact (F_active_busy _ _ _ Ens (F_wf_name_active _ _ _ _ _ _ Hg Hl Epc Hact) (busy_rstatus _ Hlive)).
-  - rewrite (F_wf_name_plain _ _ _ _ Epc) in Ens. apply (F_wf_plain_busy _ _ _ Epc Ens). apply busy_rstatus. exact Hlive.
+  intros Htok Hlive. unfold task_process_event in Ens. destruct (negb _); [discriminate|].
+  apply task_table_step_val in Ens. unfold busy. simpl.
+  destruct Htok as [[e0 [l [Hg [Hl Hact]]]]|Hno].
+  - unfold key_of in Hg. simpl in Hg.
+    destruct (status_in st (app PAUSE_STATUSES CANCEL_STATUSES)) eqn:Epc.
+    + exact (F_active_busy _ _ _ Ens (F_wf_name_active _ _ _ _ _ _ Hg Hl Epc Hact) (busy_rstatus _ Hlive)).
+    + rewrite (F_wf_name_plain _ _ _ _ Epc) in Ens. apply (F_wf_plain_busy _ _ _ Epc Ens). apply busy_rstatus. exact Hlive.
+  - assert (Hname : task_workflow_event_name (c_ws c) (r_id r) (r_route r) st = WORKFLOW_EVENT_PREFIX ++ status_name st).
+    { unfold NoTbl, items_of, key_of in Hno. simpl in Hno. unfold task_workflow_event_name.
+      destruct (status_in st (app PAUSE_STATUSES CANCEL_STATUSES)); [|reflexivity].
+      destruct (get_staged_task (c_ws c) (r_id r) (r_route r)) as [s0|]; [|reflexivity]. rewrite Hno. reflexivity. }
+    rewrite Hname in Ens. pose proof (F_wf_base_only_from_retrying _ _ _ Ens) as X.
+    pose proof (busy_rstatus _ Hlive) as Y. rewrite X in Y. discriminate Y.
 Qed.
 
 Lemma rq_restore : forall (l : list (nat * trec)), (forall i r, In (i, r) l -> ostatus_in (r_status r) ACTIVE_STATUSES = true) ->
@@ -1392,7 +1410,7 @@ Proof.
     destruct (Hrec i rec A) as [rec' [A' [B' _]]]. exists rec'. split; [exact A'|congruence].
   - intros t r i Hin'. destruct (Hk t r i Hin') as [Hc [idx [rec [A [B C]]]]]. split; [exact Hc|].
     destruct (Hrec idx rec B) as [rec' [B' [K' L']]]. exists idx, rec'. split; [unfold ws_task_idx in *; rewrite Ht; exact A|].
-    split; [exact B'|]. apply L'; [|exact C].
+    split; [exact B'|]. apply L'; [left|exact C].
     destruct (Pa t r idx A) as [rec0 [X Y]]. rewrite B in X. inversion X; subst rec0. rewrite Y.
     destruct I as [_ [_ [H1 _]]]. destruct (H1 _ _ _ Hin') as [l [Hl Hn]].
     destruct (items_of_entry _ _ _ _ Hl) as [s0 [_ [_ [_ [Hit Hg]]]]]. exists s0, l. simpl. split; [exact Hg|]. split; [exact Hit|].
